@@ -141,6 +141,8 @@ class Twin:
 
     def meth(self, name, k, recv, args):
         n = self.n if k is None else k
+        if isinstance(recv, bool) and name.startswith("assert_") and any(isinstance(a, int) and not isinstance(a, bool) and a not in (0, 1) for a in args):
+            self.dom_ok = False          # a LinCombBool method coerces its argument to a boolean: a non-boolean number is outside its domain
         if name == "from_bits":
             return sum(b << i for i, b in enumerate(recv))
         v = recv.rep if isinstance(recv, Fx) else recv
@@ -177,6 +179,11 @@ class Twin:
             return None
         if name == "val": return None
         raise TwinRaise("meth")
+
+
+# reasons for which the TWIN gives up (not Python exceptions): nothing can be concluded from them
+LIMITS = {"huge", "type", "not in twin language", "meth", "stmt", "op", "unsupported on fixed point", "non-boolean", "non-boolean condition",
+          "OverflowError", "MemoryError", "KeyError", "TypeError", "IndexError"}
 
 
 def run_twin(case, max_pc=None):
